@@ -1,13 +1,19 @@
 (** Model/MapSites.v -- the COMMITTED classification of every runtime-ordered iteration site on the
     block-execution path (C02, obligation "map iteration order").  Data only.
 
-    Key = (file, function, line-independent id, digest of the text of the WHOLE enclosing function as
-    printed by go/printer, comments dropped).  The translator regenerates Gen/MapRanges.v from the current
-    source on every run; the theorem [all_map_ranges_classified] (Props/C02.v) re-checks by computation
-    that every generated site has an entry here.  A new `range` over a map, a new sync.Map.Range call, or
-    ANY edit of a function containing a listed loop (the digest changes: e.g. dropping the sort after a
-    collect loop, adding an early return) makes that theorem fail until the site is looked at again and
-    this table updated.  (To refresh digests after a reviewed, harmless edit: copy them from Gen/MapRanges.v.)
+    Key = (file, function, line-independent id, digest).  The digest (harness/drivers/c02/mapscan/slice.go)
+    covers what the classification depends on inside the enclosing function: the loop with its body (the
+    outermost enclosing loop / the statement holding the function literal when nested), the conditions it
+    runs under, the earlier statements that define or alias the variables it mentions, and the forward
+    slice of the statements after it (a statement mentioning a tainted variable is included and taints
+    what it mentions) -- e.g. the sort after a collect loop, the comparison that consumes a counter.  A
+    repair elsewhere in the function does not change it.  Functions with named results, defer, go or
+    labels are digested whole.  The translator regenerates Gen/MapRanges.v from the current source on
+    every run; the theorem [all_map_ranges_classified] (Props/C02.v) re-checks by computation that every
+    generated site has an entry here: a new `range` over a map, a new sync.Map.Range call, or an edit
+    inside a listed site's slice makes it fail until the site is looked at again and this table updated.
+    (To refresh digests after a reviewed edit: copy them from Gen/MapRanges.v; VERIF_C02_SLICEDUMP=<file>
+    makes `harness gen` write the slice texts for review.)
 
     Classes (Model/Determinism.v): Proved l -- the loop is mirrored in Part A of the model and lemma l is
     proved for the mirror; Argued l why -- same loop shape inside a larger body, hypotheses of l argued by
@@ -24,33 +30,33 @@ Definition classification : list (site_key * order_class) := [
   (* --- ledger store --- *)
   (("core/store/ledgerstore/ledger_store.go", "(*LedgerStoreImp).executeBlock", "syncmap neovm.GAS_TABLE#0", "617d6e215411"),
    Proved L_map_copy);
-  (("core/store/ledgerstore/ledger_store.go", "(*LedgerStoreImp).PreExecuteContractWithParam", "syncmap neovm.GAS_TABLE#0", "078be6246699"),
+  (("core/store/ledgerstore/ledger_store.go", "(*LedgerStoreImp).PreExecuteContractWithParam", "syncmap neovm.GAS_TABLE#0", "3b576e9e9e9e"),
    OffPath "pre-execution (RPC), never part of a block; the body is a map copy with one key overridden by a parameter");
-  (("core/store/ledgerstore/tx_handler.go", "refreshGlobalParam", "syncmap neovm.GAS_TABLE#0", "513c84a8fb7e"),
+  (("core/store/ledgerstore/tx_handler.go", "refreshGlobalParam", "syncmap neovm.GAS_TABLE#0", "d3821f94a1ff"),
    Proved L_per_key_update);
   (* --- validator --- *)
-  (("core/validation/transaction_validator.go", "checkTransactionSignatures", "range address#0", "f2d2e90544fd"),
+  (("core/validation/transaction_validator.go", "checkTransactionSignatures", "range address#0", "479373f4bdc6"),
    Proved L_witness_membership);
   (* --- native contracts --- *)
-  (("smartcontract/service/native/auth/utils.go", "StringsDedupAndSort", "range smap#0", "8e53f1ed8a2c"),
+  (("smartcontract/service/native/auth/utils.go", "StringsDedupAndSort", "range smap#0", "83ba40911b75"),
    Proved L_collect_sort);
-  (("smartcontract/service/native/cross_chain/header_sync/states.go", "(*ConsensusPeers).Serialization", "range this.PeerMap#0", "c1e57a9beb20"),
+  (("smartcontract/service/native/cross_chain/header_sync/states.go", "(*ConsensusPeers).Serialization", "range this.PeerMap#0", "7264368c530f"),
    Argued L_collect_sort "values collected then sort.SliceStable by PeerPubkey; PeerMap is keyed by PeerPubkey (Deserialization inserts PeerMap[peer.PeerPubkey]), so sort keys are unique");
-  ((gov ++ "governance.go", "ApproveCandidate", "range peerPoolMap.PeerPoolMap#0", "192536d96452"), Proved L_count);
-  ((gov ++ "governance.go", "QuitNode", "range peerPoolMap.PeerPoolMap#0", "a082bbffcd79"), Proved L_count);
-  ((gov ++ "method.go", "registerCandidate", "range peerPoolMap.PeerPoolMap#0", "6d5cf4e354c0"), Proved L_count);
-  ((gov ++ "governance.go", "UpdateConfig", "range peerPoolMap.PeerPoolMap#0", "e2863b3e6f37"), Proved L_count);
-  ((gov ++ "governance.go", "GetPeerPoolByAddress", "range peerPoolMap.PeerPoolMap#0", "9d116453256f"),
+  ((gov ++ "governance.go", "ApproveCandidate", "range peerPoolMap.PeerPoolMap#0", "d2e088f941fd"), Proved L_count);
+  ((gov ++ "governance.go", "QuitNode", "range peerPoolMap.PeerPoolMap#0", "db2098e7ef70"), Proved L_count);
+  ((gov ++ "method.go", "registerCandidate", "range peerPoolMap.PeerPoolMap#0", "b816ac58650b"), Proved L_count);
+  ((gov ++ "governance.go", "UpdateConfig", "range peerPoolMap.PeerPoolMap#0", "f37261fb3673"), Proved L_count);
+  ((gov ++ "governance.go", "GetPeerPoolByAddress", "range peerPoolMap.PeerPoolMap#0", "8d32854211c7"),
    Argued L_map_copy "copies the entries with v.Address == address into a fresh map: map_copy of the filtered entries (filter maps permutations to permutations)");
-  ((gov ++ "governance.go", "GetPeerPoolByAddress", "range subPeerPool#0", "9d116453256f"),
+  ((gov ++ "governance.go", "GetPeerPoolByAddress", "range subPeerPool#0", "d9c955d55b5e"),
    Argued L_collect_sort "items built per entry, then sort.SliceStable by PeerAddress hex (address of the unique PeerPubkey); the early error returns abort the call whatever entry raised them, the error text is not recorded in state or events");
-  ((gov ++ "governance.go", "GetPeerPoolForVm", "range peerPoolMap.PeerPoolMap#0", "1f715311b61f"),
+  ((gov ++ "governance.go", "GetPeerPoolForVm", "range peerPoolMap.PeerPoolMap#0", "6ff9da7e58bd"),
    Argued L_collect_sort "as GetPeerPoolByAddress: collect, then sort by PeerAddress hex");
-  ((gov ++ "method.go", "executeSplit", "range peerPoolMap.PeerPoolMap#0", "62fb2a3a7f59"),
+  ((gov ++ "method.go", "executeSplit", "range peerPoolMap.PeerPoolMap#0", "702f82f855de"),
    Argued L_collect_sort "candidates collected, then sort.SliceStable by (Stake desc, PeerPubkey desc): total and strict because PeerPubkey is unique per entry");
-  ((gov ++ "method.go", "executeSplit2", "range peerPoolMap.PeerPoolMap#0", "918a2b68c8d5"),
+  ((gov ++ "method.go", "executeSplit2", "range peerPoolMap.PeerPoolMap#0", "bef26f144c28"),
    Argued L_collect_sort "same loop text as executeSplit");
-  ((gov ++ "method.go", "executeCommitDpos1", "range peerPoolMap.PeerPoolMap#0", "2a2593dd7aed"),
+  ((gov ++ "method.go", "executeCommitDpos1", "range peerPoolMap.PeerPoolMap#0", "18bf1eff116e"),
    (* STATE: per entry normalQuit/blackQuit write only keys prefixed AUTHORIZE_INFO_POOL+pubkey / this peer's own
       records (pubkeys have one fixed length, so prefixes are disjoint) and additive totals (withdrawTotalStake,
       depositPenaltyStake), delete or re-store the entry's own map key (Go allows that during range and never
@@ -58,38 +64,38 @@ Definition classification : list (site_key * order_class) := [
       (L_commute_disjoint).  EVENTS: blackQuit's ONT transfer notifications (value InitPos) are appended in map
       order: model A9, refuted for two black-listed peers with different InitPos. *)
    Finding "maporder:governance-blackquit-events");
-  ((gov ++ "method.go", "executeCommitDpos2", "range peerPoolMap.PeerPoolMap#0", "86309f313042"),
+  ((gov ++ "method.go", "executeCommitDpos2", "range peerPoolMap.PeerPoolMap#0", "5a4c4c6c4768"),
    (* as executeCommitDpos1, plus putPeerAttributes keyed by the entry's pubkey *)
    Finding "maporder:governance-blackquit-events");
-  ((gov ++ "states.go", "(*PeerPoolMap).Serialization", "range this.PeerPoolMap#0", "e073f1754346"),
+  ((gov ++ "states.go", "(*PeerPoolMap).Serialization", "range this.PeerPoolMap#0", "db1837f4bd15"),
    Argued L_collect_sort "values collected then sort.SliceStable by PeerPubkey = map key (unique)");
-  (("smartcontract/service/native/ont/ont.go", "OntInit", "range distribute#0", "284afee57b1e"),
+  (("smartcontract/service/native/ont/ont.go", "OntInit", "range distribute#0", "7927364f57c6"),
    Argued L_singleton "puts go to one balance key per address (commute); the transfer notifications ARE appended in visiting order, but OntInit only succeeds in the genesis block (total supply must still be zero) and genesis.newGoverningInit builds exactly one (address, ONT_TOTAL_SUPPLY) entry");
-  (("smartcontract/service/native/ontfs/errors.go", "(*Errors).ToString", "range this.ObjectErrors#0", "4a447879dd46"),
+  (("smartcontract/service/native/ontfs/errors.go", "(*Errors).ToString", "range this.ObjectErrors#0", "7fbf2604e475"),
    Finding "maporder:ontfs-errors-event");
-  (("smartcontract/service/native/ontfs/errors.go", "(*Errors).PrintErrors", "range this.ObjectErrors#0", "13e5e648b9d7"),
+  (("smartcontract/service/native/ontfs/errors.go", "(*Errors).PrintErrors", "range this.ObjectErrors#0", "f74f4f1bb7b8"),
    OffPath "prints to stdout, no caller");
   (* --- EVM state --- *)
-  (("smartcontract/storage/statedb.go", "(*StateDB).CommitToCacheDB", "range self.Suicided#0", "0ef3d2cebdd7"),
+  (("smartcontract/storage/statedb.go", "(*StateDB).CommitToCacheDB", "range self.Suicided#0", "c19315a54a68"),
    Proved L_prefix_delete);
-  (("smartcontract/storage/statedb.go", "(*StateDB).Snapshot", "range self.Suicided#0", "87b8a0faf2d6"),
+  (("smartcontract/storage/statedb.go", "(*StateDB).Snapshot", "range self.Suicided#0", "6803895f9309"),
    Proved L_map_copy);
-  (("vm/evm/contracts.go", "init", "range PrecompiledContractsHomestead#0", "002a278e0e24"),
+  (("vm/evm/contracts.go", "init", "range PrecompiledContractsHomestead#0", "29c5a190a802"),
    OffPath "fills PrecompiledAddresses*, read only by EVM.ActivePrecompiles, whose single caller (access-list set-up in state_processor.go) is commented out");
-  (("vm/evm/contracts.go", "init", "range PrecompiledContractsByzantium#0", "002a278e0e24"), OffPath "as Homestead");
-  (("vm/evm/contracts.go", "init", "range PrecompiledContractsIstanbul#0", "002a278e0e24"), OffPath "as Homestead");
-  (("vm/evm/contracts.go", "init", "range PrecompiledContractsYoloV2#0", "002a278e0e24"), OffPath "as Homestead");
-  (("vm/evm/logger.go", "(Storage).Copy", "range s#0", "cad4e838dc16"),
+  (("vm/evm/contracts.go", "init", "range PrecompiledContractsByzantium#0", "246c601d6a96"), OffPath "as Homestead");
+  (("vm/evm/contracts.go", "init", "range PrecompiledContractsIstanbul#0", "16415027750d"), OffPath "as Homestead");
+  (("vm/evm/contracts.go", "init", "range PrecompiledContractsYoloV2#0", "ec24f4e72c0a"), OffPath "as Homestead");
+  (("vm/evm/logger.go", "(Storage).Copy", "range s#0", "7c0f90ae9af4"),
    OffPath "StructLogger (tracer): HandleEIP155Transaction runs with evm.Config{} (no tracer); the body is a map copy");
-  (("vm/evm/logger.go", "WriteTrace", "range log.Storage#0", "c3b3a91a636b"), OffPath "debug printer of the tracer");
-  (("vm/evm/logger.go", "WriteLogs", "range log.Topics#0", "3da12720d745"),
+  (("vm/evm/logger.go", "WriteTrace", "range log.Storage#0", "0870ec0547c4"), OffPath "debug printer of the tracer");
+  (("vm/evm/logger.go", "WriteLogs", "range log.Topics#0", "5b7dbe51710c"),
    OffPath "debug printer; operand is a go-ethereum []common.Hash (a slice), untyped only because third-party packages are not loaded");
   (* --- NeoVM values --- *)
-  (("vm/neovm/types/map_value.go", "(*MapValue).getMapSortedKey", "range this.Data#0", "63f34344c4cb"),
+  (("vm/neovm/types/map_value.go", "(*MapValue).getMapSortedKey", "range this.Data#0", "3572b6381243"),
    Proved L_collect_sort);
-  (("vm/neovm/types/neovm_value.go", "(*VmValue).dump", "range self.mapval.Data#0", "a10ddc3859eb"),
+  (("vm/neovm/types/neovm_value.go", "(*VmValue).dump", "range self.mapval.Data#0", "d78086aadce5"),
    Proved L_collect_sort);
-  (("vm/neovm/types/neovm_value.go", "(*VmValue).circularRefAndDepthDetection", "range mp.Data#0", "faf86852f7a2"),
+  (("vm/neovm/types/neovm_value.go", "(*VmValue).circularRefAndDepthDetection", "range mp.Data#0", "0036efde55b1"),
    Finding "maporder:cycle-detector-first-entry")
 ].
 
